@@ -155,6 +155,10 @@ func (ex *Exec) concretize(t *Term) uint64 {
 }
 
 func (x *Explorer) check() string {
+	if time.Now().After(x.deadline) {
+		// hard stop: the budget is also enforced inside a path, not only between paths
+		panic(engineError{"time budget exhausted inside a path"})
+	}
 	r := x.s.Check()
 	if r == "unknown" {
 		x.res.Unknown++
